@@ -92,16 +92,6 @@ def ctx(tier):
                         for perm in perms:
                             for ow in (False, True):
                                 acts.append((axes, tuple(v.name for v in perm), ow))
-        # one call naming the same variable twice (registrations are one call per listed name, in order)
-        for axes in (("X",), ("Y",), ("X", "Y")):
-            mine = [v for v in vs if v.axes == axes]
-            a_ = mine[0]
-            b_ = next((v for v in mine if slot_of(v) == slot_of(a_) and v.name != a_.name), None)
-            for ow in (False, True):
-                acts.append((axes, (a_.name, a_.name), ow))
-                if b_ is not None:
-                    acts.append((axes, (a_.name, b_.name, a_.name), ow))
-                    acts.append((axes, (b_.name, a_.name, b_.name), ow))
         spell = {("X",): ["X", ("X",), ["X"]], ("Y",): ["Y", ["Y"], ("Y",)], ("X", "Y"): [("X", "Y"), ["Y", "X"], ("Y", "X")]}
         actions = []
         for i, (axes, names, ow) in enumerate(acts):
